@@ -7,7 +7,7 @@ import obligations
 
 EXPLANATION = ("Structural necessary conditions only: Identity::self_signed = builder.subject_alt_names(sans).from_now_utc().validity_days(14).build() "
                "with the constant <= 14; validity_days/offset_from_not_before compute not_after = not_before + days; build() generates the key with "
-               "&PKCS_ECDSA_P256_SHA256 and passes sans / not_before / not_after unchanged into CertificateParams; PEM tags are CERTIFICATE / PRIVATE KEY "
+               "PKCS_ECDSA_P256_SHA256 and passes sans / not_before / not_after unchanged into CertificateParams; PEM tags are CERTIFICATE / PRIVATE KEY "
                "and to_pem encodes der()/secret_der() unchanged; every Certificate is constructed behind X509 parsing (from_der), from rustls "
                "(already-parsed peer certs) or from rcgen; digest formatter and parser agree per format (lower-hex joined by ':' <-> split ':' radix 16; "
                "{:?} of [u8;32] <-> trim '[' ']' split ',' decimal u8; in the whole parser family (function, closures, helpers) no truncating / skipping adaptor "
@@ -40,27 +40,27 @@ def run(ctx):
     with depth_limit(8):
         okp = [p for p in nonpanic(walk(g)) if path_sig(p)[1].startswith("return Result::Ok(Identity::new(")]
         ev = [e for p in okp for e in event_strs(p)]
-    ctx.check("C19-R1", "key algorithm ECDSA P-256", any(e == "KeyPair::generate_for(&*PKCS_ECDSA_P256_SHA256)" for e in ev), "build() does not generate the key with &PKCS_ECDSA_P256_SHA256: %s" % [e for e in ev if "generate_for" in e][:1], where(g))
+    ctx.check("C19-R1", "key algorithm ECDSA P-256", any(e == "KeyPair::generate_for(PKCS_ECDSA_P256_SHA256)" for e in ev), "build() does not generate the key with &PKCS_ECDSA_P256_SHA256: %s" % [e for e in ev if "generate_for" in e][:1], where(g))
     ctx.check("C19-R1", "SANs unchanged", any(e == "CertificateParams::new(self.0.sans)" for e in ev), "build() does not pass the requested SANs to CertificateParams::new", where(g))
     ctx.check("C19-R1", "not_before unchanged", any(e == "store ok(CertificateParams::new(self.0.sans)).not_before := self.0.not_before" for e in ev), "build() does not copy not_before into the certificate parameters", where(g))
     ctx.check("C19-R1", "not_after unchanged", any(e == "store ok(CertificateParams::new(self.0.sans)).not_after := self.0.not_after" for e in ev), "build() does not copy not_after into the certificate parameters", where(g))
-    ctx.check("C19-R1", "self-signed with the generated key", any(re.match(r"^CertificateParams::self_signed\(&ok\(CertificateParams::new\(self\.0\.sans\)\),&Result::expect\(KeyPair::generate_for\(&\*PKCS_ECDSA_P256_SHA256\),", e) for e in ev), "build() does not self-sign with the generated key pair", where(g))
+    ctx.check("C19-R1", "self-signed with the generated key", any(re.match(r"^CertificateParams::self_signed\(ok\(CertificateParams::new\(self\.0\.sans\)\),Result::expect\(KeyPair::generate_for\(PKCS_ECDSA_P256_SHA256\),", e) for e in ev), "build() does not self-sign with the generated key pair", where(g))
     g2 = A.find1(r"^wtransport::tls::self_signed::SelfSignedIdentityBuilder::subject_alt_names$")
     s2 = [path_sig(p)[1] for p in nonpanic(walk(g2))]
     ctx.check("C19-R1", "subject_alt_names collects every given name", len(s2) == 1 and "WantsValidityPeriod(Iterator::collect(Iterator::map(" in s2[0].replace("<I as IntoIterator>::into_iter", "").replace("IntoIterator::into_iter", "") or (len(s2) == 1 and "WantsValidityPeriod(" in s2[0] and "collect(" in s2[0]), "subject_alt_names changed: %s" % s2, where(g2))
 
     ctx.rule("C19-R2", "PEM tags and DER passthrough; every Certificate is built behind validation")
-    for fn_, tag, src in (("Certificate::to_pem", "CERTIFICATE", "Certificate::der(&*self)"), ("PrivateKey::to_secret_pem", "PRIVATE KEY", "PrivateKey::secret_der(&*self)")):
+    for fn_, tag, src in (("Certificate::to_pem", "CERTIFICATE", "Certificate::der(self)"), ("PrivateKey::to_secret_pem", "PRIVATE KEY", "PrivateKey::secret_der(self)")):
         g = A.fn(T + fn_)
         s2 = [path_sig(p)[1] for p in nonpanic(walk(g))]
-        ctx.check("C19-R2", fn_, s2 == ["return encode(&Pem::new('%s',%s))" % (tag, src)], "%s is not pem::encode(Pem::new(%r, der)): %s" % (fn_, tag, s2), where(g))
+        ctx.check("C19-R2", fn_, s2 == ["return encode(Pem::new('%s',%s))" % (tag, src)], "%s is not pem::encode(Pem::new(%r, der)): %s" % (fn_, tag, s2), where(g))
     g = A.fn(T + "Certificate::der")
     s2 = [path_sig(p)[1] for p in nonpanic(walk(g))]
-    ctx.check("C19-R2", "Certificate::der", s2 == ["return &*self.0"] or (len(s2) == 1 and re.match(r"^return &\*+(<CertificateDer as Deref>::deref\(&\*?self\.0\)|self\.0)$", s2[0])), "Certificate::der does not return the stored DER: %s" % s2, where(g))
+    ctx.check("C19-R2", "Certificate::der", s2 == ["return self.0"] or (len(s2) == 1 and re.match(r"^return (<CertificateDer as Deref>::deref\(self\.0\)|self\.0)$", s2[0])), "Certificate::der does not return the stored DER: %s" % s2, where(g))
     g = A.fn(T + "Certificate::from_der")
     sg2 = sorted(path_sig(p) for p in nonpanic(walk(g)))
     ctx.check("C19-R2", "from_der validates before constructing", [l for _, l in sg2 if l.startswith("return Result::Ok")] == ["return Result::Ok(Certificate(<CertificateDer as From<Vec<u8>>>::from(der)))"] and
-              all(a == ("<X509Certificate as FromDer<X509Error>>::from_der(&der) ok",) for a, l in sg2 if l.startswith("return Result::Ok")), "Certificate::from_der constructs without a successful X509 parse: %s" % sg2, where(g))
+              all(a == ("<X509Certificate as FromDer<X509Error>>::from_der(der) ok",) for a, l in sg2 if l.startswith("return Result::Ok")), "Certificate::from_der constructs without a successful X509 parse: %s" % sg2, where(g))
     sites = set()
     for fn2, p, ops, atoms in construction_sites(A, "wtransport::tls::Certificate"):
         if "::tests::" not in fn2.path:
@@ -73,7 +73,7 @@ def run(ctx):
         ctx.check("C19-R2", "%s goes through from_der" % loader, (T + "Certificate::from_der") in calls, "%s does not validate certificates through Certificate::from_der" % loader)
     g = A.fn(T + "Certificate::hash")
     s2 = [path_sig(p)[1] for p in nonpanic(walk(g))]
-    ctx.check("C19-R2", "Certificate::hash = SHA-256(der)", s2 == ["return Sha256Digest(<D as Digest>::digest(Certificate::der(&*self)))"], "Certificate::hash changed: %s" % s2, where(g))
+    ctx.check("C19-R2", "Certificate::hash = SHA-256(der)", s2 == ["return Sha256Digest(<D as Digest>::digest(Certificate::der(self)))"], "Certificate::hash changed: %s" % s2, where(g))
 
     ctx.rule("C19-R3", "digest text formats: formatter and parser agree per format")
     g = A.fn(T + "Sha256Digest::from_str_fmt")
@@ -102,7 +102,7 @@ def run(ctx):
               "so malformed text with a valid prefix is accepted" % bad, where(g), key="digest parser: no truncating adaptor")
     dec = [(x, e) for x, e in calls if e[1].endswith("<impl str>::parse")]
     t0 = {tuple(e[5].get("targs", [])) for _, e in dec}
-    ctx.check("C19-R3", "BytesArray element: decimal u8", bool(dec) and t0 == {("u8",)} and all(re.match(r"^<impl str>::parse\(&\*<impl str>::trim\(", canon(("call", e[1], e[2], 0))) for _, e in dec)
+    ctx.check("C19-R3", "BytesArray element: decimal u8", bool(dec) and t0 == {("u8",)} and all(re.match(r"^<impl str>::parse\(<impl str>::trim\(", canon(("call", e[1], e[2], 0))) for _, e in dec)
               or any(canon(e[2][1]) == "10" for _, e in calls if e[1].endswith("::from_str_radix")),
               "BytesArray elements are not parsed as trimmed decimal u8: %s" % t0, where(g))
     rad = sorted({canon(e[2][1]) for _, e in calls if e[1].endswith("::from_str_radix")})
@@ -111,7 +111,7 @@ def run(ctx):
     with depth_limit(10):
         okp = [p for p in ps if path_sig(p)[1].startswith("return Result::Ok(")]
     tt = {tuple(e[5].get("targs", [])) for p in ps for e in p.events if e[0] == "call" and e[1].endswith("TryInto<U>>::try_into")}
-    exact = bool(okp) and bool(tt) and all(len(t) == 2 and t[1] == "[u8; 32]" and re.match(r"^(std::vec::Vec<u8>|&\[u8\]|std::boxed::Box<\[u8\]>)$", t[0]) for t in tt) and \
+    exact = bool(okp) and bool(tt) and all(len(t) == 2 and t[1] == "[u8; 32]" and re.match(r"^(std::vec::Vec<u8>|\[u8\]|std::boxed::Box<\[u8\]>)$", t[0]) for t in tt) and \
         all(any(re.search(r"TryInto<U>>::try_into\(.*\) ok$", a) for a in path_sig(p)[0]) for p in okp)
     ctx.check("C19-R3", "exactly 32 components: Ok only after a successful Vec<u8> -> [u8; 32] conversion", exact,
               "the accepting paths of from_str_fmt are not all guarded by a successful conversion of the whole parsed sequence into [u8; 32] "
@@ -123,8 +123,8 @@ def run(ctx):
         sg2 = {tuple(path_sig(p)[0]): path_sig(p)[1] for p in nonpanic(walk(g))}
     lb = sg2.get(("fmt is BytesArray",), "")
     ld = sg2.get(("fmt is DottedHex",), "")
-    ctx.check("C19-R3", "BytesArray formatter = {:?} of the array", "Argument::new_debug(&self.0)" in lb.replace("&*", "&") or "new_debug(" in lb, "BytesArray formatting is not Debug of the byte array: %s" % lb[:120], where(g))
-    ctx.check("C19-R3", "DottedHex formatter joined by ':'", re.search(r"join\(.*,&\*':'\)$", ld) is not None, "DottedHex formatting does not join with ':': %s" % ld[:160], where(g))
+    ctx.check("C19-R3", "BytesArray formatter = {:?} of the array", "Argument::new_debug(self.0)" in lb.replace("*", "&") or "new_debug(" in lb, "BytesArray formatting is not Debug of the byte array: %s" % lb[:120], where(g))
+    ctx.check("C19-R3", "DottedHex formatter joined by ':'", re.search(r"join\(.*,':'\)$", ld) is not None, "DottedHex formatting does not join with ':': %s" % ld[:160], where(g))
     cf = A.fn(T + "Sha256Digest::fmt::{closure#0}")
     s2 = [path_sig(p)[1] for p in nonpanic(walk(cf))]
     ctx.check("C19-R3", "DottedHex element formatter is hexadecimal", len(s2) == 1 and re.search(r"Argument::new_(lower|upper)_hex\(", s2[0]) is not None, "DottedHex elements are not formatted in hexadecimal: %s" % s2, where(cf))
@@ -132,7 +132,7 @@ def run(ctx):
     s2 = [path_sig(p)[1] for p in nonpanic(walk(g))]
     gc = A.fn("<wtransport::tls::Sha256Digest as std::str::FromStr>::from_str::{closure#0}")
     s3 = [path_sig(p)[1] for p in nonpanic(walk(gc))]
-    ctx.check("C19-R3", "FromStr tries both formats", s2 == ["return Result::or_else(Sha256Digest::from_str_fmt(s,Sha256DigestFmt::BytesArray),closure:<Sha256Digest as FromStr>::{closure#0})"] and s3 == ["return Sha256Digest::from_str_fmt(*s,Sha256DigestFmt::DottedHex)"],
+    ctx.check("C19-R3", "FromStr tries both formats", s2 == ["return Result::or_else(Sha256Digest::from_str_fmt(s,Sha256DigestFmt::BytesArray),closure:<Sha256Digest as FromStr>::{closure#0})"] and s3 == ["return Sha256Digest::from_str_fmt(s,Sha256DigestFmt::DottedHex)"],
               "Sha256Digest::from_str does not try BytesArray then DottedHex: %s %s" % (s2, s3), where(g))
 
     ctx.rule("C19-R4", "no undischarged panic obligation in the digest / DER / PEM parsers")
